@@ -1,10 +1,81 @@
 """C12 — every integer and float bit pattern is decoded and encoded exactly."""
-from lib import harness
+import os
+from lib import harness, c3dspec, filegen
 from checks import common
 LEVEL = 'proof'
 
+def float_patterns(rng):
+    """every exponent x sign with several mantissas, NaN payloads (quiet and signalling), denormals, zeros, infinities"""
+    out = []
+    for sign in (0, 1):
+        for e in range(256):
+            for m in (0, 1, 0x400000, 0x3fffff, 0x7fffff, rng.getrandbits(23)):
+                out.append('%08x' % ((sign << 31) | (e << 23) | m))
+    return out
+
+def pattern_file(rng, part=0):
+    """one well-formed file holding all 2^8 byte values, all 2^16 integer values (three INT parameters: a record is
+    limited to 65535 bytes) and the float patterns in parameters, points, residuals, analog samples, rate and event times"""
+    fl = float_patterns(rng)
+    c = filegen.make_content(rng, dict(npoints=4, nchan=3, nsub=2, nframes=0, dense_ids=True, order='canonical', nlabels=4, nalabels=3, first=1))
+    k = 0; frames = []
+    while k + 4 * 4 + 3 * 2 <= len(fl):
+        pts = [tuple(fl[k + 4 * i:k + 4 * i + 4]) for i in range(4)]; k += 16
+        an = [fl[k + 3 * s_:k + 3 * s_ + 3] for s_ in range(2)]; k += 6
+        frames.append((pts, an))
+    c['frames'] = frames
+    recs = []
+    for r in c['records']:
+        if r[0] == 'P' and r[2] == b'FRAMES': r = r[:7] + ([len(frames)],)
+        recs.append(r)
+    ints = [v - 65536 if v >= 32768 else v for v in range(65536)]
+    recs += [('G', 20, b'PATTERNS', b'', 0)]
+    if part == 0:
+        recs += [('P', 20, b'BYTES', b'', 0, 'B', [255], [v - 256 if v >= 128 else v for v in range(255)]), ('P', 20, b'BYTE255', b'', 0, 'B', [], [-1]),
+                 ('P', 20, b'INTS_A', b'', 0, 'I', [150, 145], ints[:21750]), ('P', 20, b'INTS_B', b'', 0, 'I', [150, 145], ints[21750:43500]),
+                 ('P', 20, b'FLOATS', b'', 0, 'F', [255, 12], fl[:3060])]
+    else:
+        recs += [('P', 20, b'INTS_C', b'', 0, 'I', [254, 86], ints[43500:43500 + 21844]), ('P', 20, b'INTS_D', b'', 0, 'I', [192], ints[65344:])]
+    c['records'] = recs
+    c['nev'] = 18; c['evtime'] = fl[100:118]
+    return c
+
 def run(rep, work, rng, tier):
     common.proof_part(rep, 'C12')
+    # ---- files: every pattern through load and save ----
+    shared = work.sub('shared')
+    L = dict(zeros=0, paddr=2, prologue_zeroed=False, end_by_zero_offset=False, strpad=b' ', extra_pad_blocks=0)
+    contents = {}
+    fcases = []
+    for part in (0, 1):
+        c = pattern_file(rng, part); contents['patterns%d' % part] = c
+        open(os.path.join(shared, 'patterns%d.c3d' % part), 'wb').write(c3dspec.encode(L, c))
+        fcases.append(('patterns%d' % part, ['loadx 0 patterns%d.c3d' % part, 'snap 0', 'save 0 p%d_2.c3d' % part, 'fsum p%d_2.c3d' % part, 'load 1 p%d_2.c3d' % part, 'snap 1', 'save 1 p%d_3.c3d' % part, 'fsum p%d_3.c3d' % part]))
+    # header words boundary-dense over their ranges
+    for i, (first, gap) in enumerate([(1, 0), (2, 1), (32767, 32767), (32768, 32768), (65535, 65535), (255, 256), (256, 255)]):
+        cc = filegen.make_content(rng, dict(first=first, nframes=1, npoints=1, nchan=0, dense_ids=True)); cc['gap'] = gap
+        open(os.path.join(shared, 'hw%d.c3d' % i), 'wb').write(c3dspec.encode(L, cc))
+        fcases.append(('hw%d' % i, ['loadx 0 hw%d.c3d' % i, 'snap 0', 'save 0 hw%d_2.c3d' % i, 'fsum hw%d_2.c3d' % i, 'load 1 hw%d_2.c3d' % i, 'snap 1']))
+    (fc, fcown), (fm, _), fnd = common.correspondence(rep, work, fcases, label='every pattern through load, save, reload', shared=shared)
+    fbad = 0
+    for cid, lines in fcases:
+        cl, cs = fc.get(cid, ([], 'missing')); ops = harness.split_ops(lines, cl)
+        snaps = [out for ln, out in ops if ln.startswith('snap') and out and out[0].startswith('H ')]
+        if len(snaps) < 2:
+            fbad += 1; rep.violation('oracle', 'the pattern file was not loaded / reloaded (%s)' % cs, script=lines, signature='pattern-file'); continue
+        s0 = harness.Snap(snaps[0]); s1 = harness.Snap(snaps[1])
+        if cid.startswith('patterns'):
+            d = filegen.diff_dump(s0, filegen.expected_dump(L, contents[cid]))
+            if d:
+                fbad += 1; rep.violation('oracle', 'a pattern is not decoded as the bytes spell: %s' % d[0][:300], script=lines, signature='pattern-decode')
+        from checks import c04
+        d2 = c04.diff_named(c04.named(s0), c04.named(s1))
+        if d2:
+            fbad += 1; rep.violation('oracle', 'a pattern changed between load and save: %s' % d2[0][:300], script=lines, signature='pattern-reencode')
+        sums = [out[0] for ln, out in ops if ln.startswith('fsum') and out]
+        if cid.startswith('patterns') and len(sums) == 2 and sums[0] != sums[1]:
+            fbad += 1; rep.violation('oracle', 'saving the reloaded pattern file again is not byte-identical', script=lines, signature='pattern-bytes')
+    rep.coverage['file_patterns'] = dict(bytes=256, ints=65536, floats=len(float_patterns(rng)), header_word_cases=len(fcases) - 2, oracle_failures=fbad, disagreements=fnd)
     cases = [('sweep1', ['h2sweep 1']), ('sweep2', ['h2sweep 2'])]
     # boundary-dense 4-byte and long assemblies (the header's 4-, 44- and 270-byte reads)
     pats = []
